@@ -320,6 +320,11 @@ type TxOutcome struct {
 
 // RunTx executes one transaction against the world and the model and compares outcomes op by op.
 func RunTx(w *World, m *Model, tx TxSpec) TxOutcome {
+	return RunTxWith(w, m, tx, nil)
+}
+
+// RunTxWith is RunTx with a hook called at the start of the transaction function (every time it is invoked).
+func RunTxWith(w *World, m *Model, tx TxSpec, pre func(ctx boltz.MutateContext)) TxOutcome {
 	var out TxOutcome
 	trial := m.Clone()
 	before := w.Dump()
@@ -327,6 +332,9 @@ func RunTx(w *World, m *Model, tx TxSpec) TxOutcome {
 		// Db.Batch may call the function more than once (bbolt re-runs a failed batch member on its own)
 		trial = m.Clone()
 		out = TxOutcome{}
+		if pre != nil {
+			pre(ctx)
+		}
 		if tx.System {
 			ctx = ctx.GetSystemContext()
 		}
